@@ -109,9 +109,15 @@ def rule_tm123(ctx: Ctx) -> RuleResult:
             continue
         d = [e for e in p.trace if e.k == "decision" and e.test[0] == "call" and e.test[1] == ("builtin", "isinstance")
              and len(e.test[2]) == 2 and e.test[2][0] == src_param]
-        if len(d) != 1:
-            raise AnalysisError("tee_map: expected the single dispatch isinstance(source, rs.MuxObservable) on every path of %s" % m.scopes[fn].qualname)
-        arm = "mux" if d[0].outcome else "plain"
+        # the arm of a path: 'mux' when some isinstance(source, <MuxObservable or a class of that module tree>) held, 'plain' when
+        # isinstance(source, rs.MuxObservable) was refuted; whatever else the path tested, the connectable obligation below is the same
+        def _cls(e):
+            return show(e.test[2][1])
+        base = [e for e in d if _cls(e).endswith("MuxObservable")]
+        if len(base) > 1 or (not base and not [e for e in d if e.outcome]):
+            raise AnalysisError("tee_map: cannot tell the arm of a path of %s from its isinstance tests (%s)" % (
+                m.scopes[fn].qualname, ", ".join("%s=%s" % (_cls(e), e.outcome) for e in d)))
+        arm = "mux" if [e for e in d if e.outcome] else "plain"
         v = p.value
         ok = v is not None and v[0] == "call" and v[1] == ("func", factory, m)
         c = None
@@ -126,6 +132,13 @@ def rule_tm123(ctx: Ctx) -> RuleResult:
         if c is None:
             continue
         root, stages = _pipe_chain(c)
+        # source.pipe(*stages) with  stages = [...]; stages.append(x): the list as it stands at the call is the display plus the
+        # values appended to it on this path (the executor keeps the display term as the name's value and records the appends)
+        if len(stages) == 1 and stages[0][0] == "star" and stages[0][1][0] == "list" and not any(x[0] == "star" for x in stages[0][1][1:]):
+            lst = stages[0][1]
+            muts = [e for e in p.trace if e.k == "mutate" and e.base == lst]
+            if all(e.method == "append" and len(e.args) == 1 and not e.d.get("raised") for e in muts):
+                stages = list(lst[1:]) + [e.args[0] for e in muts]
         names = [_stage_name(t) for t in stages]
         want = ["rx.operators.publish"] + (["rxsci.mux.muxconnectable.cast_as_mux_connectable"] if arm == "mux" else [])
         r.ob(root == src_param and names == want, lambda arm=arm, c=c: Finding(
